@@ -395,8 +395,11 @@ func validatePageSettings(settings *PageSettings) error {
 		const minSize = 12.7  // 0.5英寸
 		const maxSize = 558.8 // 22英寸
 
-		if settings.CustomWidth < minSize || settings.CustomWidth > maxSize ||
-			settings.CustomHeight < minSize || settings.CustomHeight > maxSize {
+		// 允许极小的浮点误差：尺寸以缇为单位保存，恰好等于边界值的尺寸（12.7mm=720缇）
+		// 读回后可能是12.699999…，否则之后所有“读取-修改-写入”的设置方法都会失败
+		const epsilon = 1e-6
+		if settings.CustomWidth < minSize-epsilon || settings.CustomWidth > maxSize+epsilon ||
+			settings.CustomHeight < minSize-epsilon || settings.CustomHeight > maxSize+epsilon {
 			return fmt.Errorf("页面尺寸必须在%.1f-%.1fmm范围内", minSize, maxSize)
 		}
 	}
